@@ -49,20 +49,20 @@ impl Property for C03 {
     }
     fn plan(&self, suite: SuiteId, tier: Tier) -> Vec<(u32, u32)> {
         let per = match (tier, suite.slow()) {
-            (Tier::Quick, false) => 20,
-            (Tier::Quick, true) => 5,
-            (Tier::Thorough, false) => 400,
-            (Tier::Thorough, true) => 80,
+            (Tier::Quick, false) => 10,
+            (Tier::Quick, true) => 3,
+            (Tier::Thorough, false) => 200,
+            (Tier::Thorough, true) => 40,
         };
-        // strata: identifier style x key source (dealer, dkg)
-        (0..12).map(|s| (s, per)).collect()
+        // strata: identifier style x key source (dealer, dkg, dealer+refresh, dealer+repair)
+        (0..24).map(|s| (s, per)).collect()
     }
     fn chunk(&self, suite: SuiteId) -> u32 {
         if suite.slow() { 3 } else { 10 }
     }
     fn strategy(&self, suite: SuiteId, tier: Tier, stratum: u32) -> BoxedStrategy<Case> {
         let style = ID_STYLES[(stratum % 6) as usize];
-        let source = if stratum / 6 == 0 { KeySource::Dealer } else { KeySource::Dkg };
+        let source = [KeySource::Dealer, KeySource::Dkg, KeySource::DealerRefreshed, KeySource::Repaired][(stratum / 6 % 4) as usize];
         let nmax = match (tier, suite.slow(), source) {
             (Tier::Quick, false, KeySource::Dkg) => 6,
             (Tier::Quick, true, KeySource::Dkg) => 4,
@@ -84,6 +84,8 @@ impl Property for C03 {
             ("k=t-1".into(), m),
             ("k>=3".into(), m),
             ("src:dkg".into(), m),
+            ("src:dealer+refresh".into(), m),
+            ("src:dealer+repair".into(), m),
             ("lied:refused-by-aggregate".into(), m),
             ("honest:signer-refused".into(), m),
             ("honest:coordinator-refused".into(), m),
